@@ -104,7 +104,7 @@ def run(ctx):
 
 CLAIM = {
     "text": "Decides that RE.__call__ pushes a wait_for plan over the futures of every tripped installed suspender above the user's plan before the "
-            "task starts, that a not-installed suspender ignores its signal, that remove() unsubscribes, releases a pending suspension and only then "
+            "task starts, that the tripped latch these futures depend on is set on every exit of the suspend branch, that a not-installed suspender ignores its signal, that remove() unsubscribes, releases a pending suspension and only then "
             "forgets the engine, that install subscribes with run=True, and that the engine-side install / remove bookkeeping is idempotent with "
             "closed-world writers. Run-time histories are not decided.",
     "technique": "statement-order rules on the resolved methods; ownership table",
